@@ -6,6 +6,7 @@ The moment functions are the exact tetrahedron moments of C03, so with `C03_clos
 about the mass properties the library reports.  Over any field of characteristic zero.
 -/
 import TrimeshVerif.Proofs.Affine
+import TrimeshVerif.Proofs.GeomRat
 namespace TV.C04
 open TV.Mat3 TV.Moments TV.Affine
 
@@ -150,5 +151,30 @@ theorem C04_area_similarity (L : M3 K) (s : K) (h : L.transpose * L = M3.smul (s
   rw [dot_cross_self, dot_cross_self, dot_apply_similarity L s h, dot_apply_similarity L s h,
     dot_apply_similarity L s h]
   ring
+
+
+/-! ### the executable rational model run by the driver (Model/GeomRat.lean) -/
+section rat
+open TV.GeomRat
+
+/-- what the driver evaluates is the generic definition at ℚ (all four by `rfl`) -/
+theorem C04_rat_model_is_generic (L : M3R) (t p a b c : TV.GeomRat.V) :
+    transformR L t p = transformPoint (toM3 L) t p ∧ detR L = (toM3 L).det ∧
+    volR a b c = vol a b c ∧ firstR a b c = first a b c :=
+  ⟨transformR_eq L t p, detR_eq L, volR_eq a b c, firstR_eq a b c⟩
+
+theorem C04_rat_compose (A B : M3R) (ta tb p : TV.GeomRat.V) :
+    transformR A ta (transformR B tb p) = transformR (mulR A B) (addV (applyR A tb) ta) p :=
+  rat_compose A B ta tb p
+
+/-- for every triangle list: the signed volume of the linearly mapped triangles is `det L` times the original -/
+theorem C04_rat_mesh_volume_det (L : M3R) (ts : List TV.GeomRat.Tri) :
+    meshVolR (ts.map (mapTri (applyR L))) = detR L * meshVolR ts :=
+  rat_mesh_volume_det L ts
+
+theorem C04_rat_first_moment (L : M3R) (a b c : TV.GeomRat.V) :
+    firstR (applyR L a) (applyR L b) (applyR L c) = smulV (detR L) (applyR L (firstR a b c)) :=
+  rat_first_moment L a b c
+end rat
 
 end TV.C04
